@@ -257,6 +257,7 @@ fn to_rhs(s: &PathSegment, self_ty: &Type) -> Type {
     self_ty.clone()
 }
 fn ref_type(ty: &Type) -> Type {
+    let ty = crate::syn_utils::ref_operand(ty);
     parse_quote!(&#ty)
 }
 fn ref_type_with(ty: &Type, is_ref: bool) -> Type {
